@@ -4,6 +4,7 @@ from __future__ import annotations
 import ast
 import os
 import z3
+from .qa import ForAll as QForAll
 from . import ty
 from .ty import T, INT, REAL, BOOL
 from .prelude import seq_ops
@@ -112,7 +113,7 @@ def havoc_for_loop(E, st, fr, names, keys, entry, has_yield=True):
         st.resume = rs
     if ("alloc",) in keys:
         r = fresh("r", ty.RefSort)
-        st.assume(z3.ForAll([r], z3.Implies(z3.Select(E.alloc(entry), r), z3.Select(E.alloc(st), r)),
+        st.assume(QForAll([r], z3.Implies(z3.Select(E.alloc(entry), r), z3.Select(E.alloc(st), r)),
                             patterns=[z3.Select(E.alloc(st), r)]))
     E.wf_keys(st, keys)
 
@@ -341,11 +342,13 @@ def do_cut(E, st, fr, spec, k):
         E.loop_frame_assumption(st, fr, key, new, None)
     if ("alloc",) in touched:
         r = fresh("r", ty.RefSort)
-        st.assume(z3.ForAll([r], z3.Implies(z3.Select(E.alloc(entry), r), z3.Select(E.alloc(st), r)),
+        st.assume(QForAll([r], z3.Implies(z3.Select(E.alloc(entry), r), z3.Select(E.alloc(st), r)),
                             patterns=[z3.Select(E.alloc(st), r)]))
         if base is not None:
-            st.assume(z3.ForAll([r], z3.Implies(z3.Select(E.alloc(base), r), z3.Select(E.alloc(st), r)),
+            st.assume(QForAll([r], z3.Implies(z3.Select(E.alloc(base), r), z3.Select(E.alloc(st), r)),
                                 patterns=[z3.Select(E.alloc(base), r)]))
+    if ("alloc",) in touched:
+        E.alloc_from_initial(st)
     E.wf_keys(st, touched)
     # locals holding references keep pointing at allocated objects
     for n, v in st.locals.items():
